@@ -7,6 +7,15 @@ props = [json.loads(l) for l in open(os.path.join(HERE, "properties.jsonl"))]
 
 # id -> (level, technique, level text, level note, design ref)
 CLAIMS = {
+    "C09": ("model_checking",
+            "closed-form whole-operation operators (Z80Block) checked by TLC against iterated Step (MC_Block) + per-Step and whole-run trace validation",
+            "TLC checks on the specification that iterating Step equals the closed form of LDIR/LDDR/CPIR/CPDR/INIR/INDR/OTIR/"
+            "OTDR for small counts, overlaps and wrap; the real CPU is stepped per Step (validated Step by Step) and to "
+            "completion up to 65,536 Steps (BC = 0 / 65,535, B = 0), the whole-run result (Steps, registers, flags, every "
+            "changed cell, port log) being checked by TLC against the closed form.",
+            "Counts/pointers sampled at the values the property lists plus random. Closed form not applicable when the "
+            "operation changes its own opcode bytes.",
+            "DESIGN.md section 3 C09"),
     "C07": ("model_checking",
             "two-run recording at EVERY Step boundary + TLC trace validation of all Steps + transparency relation evaluated by TLC (mark/cmp events)",
             "Generated register-transparent programs are run undisturbed and with a request (NMI, IM1, IM2 even/odd, IM0 RST/CALL) "
